@@ -2579,7 +2579,10 @@ impl Connection {
                 src_cid: rem_cid, ..
             } => {
                 if self.side.is_server() {
-                    return Err(TransportError::PROTOCOL_VIOLATION("client sent Retry").into());
+                    // Retry packets are not protected by connection keys, so anyone who has seen
+                    // our connection ID can produce one
+                    trace!("discarding Retry sent to a server");
+                    return Ok(());
                 }
 
                 if self.total_authed_packets > 1
